@@ -141,9 +141,16 @@ def run(ctx):
                             if not par.inside(ddef, l):
                                 ind |= astx.names_in(l.target)
                     params = set(p for p in f.params if p not in ("self", "cls"))
-                    deps = rules.names_closure(sc, n.value, stop=ind | key_names | params)
+                    deps = rules.names_closure(sc, n.value, stop=ind | key_names | params, ignore_ctx=list(par.ancestors(n)))
+                    if isinstance(base, ast.Name) and base.id in deps:
+                        continue  # the stored value is derived from the table's own previous entry: an accumulator / group-by, not a memo
                     missing = sorted(((deps & params) | (deps & ind)) - key_names)
-                    weak = [p for p in (deps & params) if p in key_names and not any(k == p or k.startswith(p + ".") or k.startswith(p + "[") for k in key_direct)]
+                    def pins(k, p):
+                        # the key component identifies p: p itself, an attribute p.name, an element p[i] - not a computed summary p.m() / f(p)
+                        if k == p or k.startswith(p + "["):
+                            return True
+                        return k.startswith(p + ".") and "(" not in k
+                    weak = [p for p in (deps & params) if p in key_names and not any(pins(k, p) for k in key_direct)]
                     a_ = f.node.args
                     ann = {x.arg: (txt(x.annotation) if x.annotation is not None else "") for x in a_.posonlyargs + a_.args}
                     mutable_keys = [] if isinstance(key_r, ast.JoinedStr) else [k for k in key_direct if k in params and (any(h in ann.get(k, "").lower() for h in ("graph", "list", "dict", "set"))
